@@ -331,6 +331,7 @@ func RunC12(d *Driver) *Report {
 			r.Violation(Case{Stream: "equality", Input: src, Real: trunc(res.Class+" "+res.Out, 600), Spec: "two maps are equal iff they have the same keys with equal values, in any insertion order:\n" + trunc(want, 600), Note: DiffAt(res.Out, want)})
 		}
 	}
+	r.Rule += "; range loops WITHOUT a loop variable with deletions in the body (against the Lean evaluator model and against the loop with a variable); a map loop entered while another one runs (another map of 0 / 2 / 3 / 5 keys, the same map, its alias; directly and in a called function; with deletions and insertions in the outer body); assignment of an equal but distinct composite to an existing key followed by updates of either composite"
 	r.DriverCalls = d.N
 	return r
 }
